@@ -277,6 +277,12 @@ func coreEngine(o *Opts) {
 	}
 	var b strings.Builder
 	b.WriteString(coreRequires)
+	checker := "core_check"
+	if o.Checker != "" {
+		parts := strings.SplitN(o.Checker, ":", 2)
+		b.WriteString("From YK Require Import " + parts[0] + ".\n")
+		checker = parts[1]
+	}
 	names := []string{}
 	for i := range all.Cases {
 		c := &all.Cases[i]
@@ -302,7 +308,7 @@ func coreEngine(o *Opts) {
 		st.Case(canon, c.nontrivial(), map[string]any{"ops": c.Ops, "nsteps": len(c.Steps)})
 	}
 	b.WriteString("Definition cases : list ohistory := [" + strings.Join(names, "; ") + "].\n")
-	b.WriteString("Definition M := Eval vm_compute in core_check cases.\nPrint M.\n")
+	b.WriteString("Definition M := Eval vm_compute in " + checker + " cases.\nPrint M.\n")
 	base := filepath.Join(o.OutDir, fmt.Sprintf("cases_core_%d", o.Shard))
 	writeFile(base+".v", b.String())
 	writeJSON(base+".json", all)
